@@ -102,6 +102,27 @@ def propC06 (cands : List Nat) (pre : Screen) (c : Call) (post : Screen) : Bool 
     post.cursor.x == e.x && post.cursor.y == e.y && post.margins == e.margins &&
     sameSettingsB cands { pre with margins := post.margins } post
 
+/-- autowrap on the bottom margin: one printable character drawn at the pending-wrap position, DECAWM set -/
+def wrapsAtBottom (env : Env) (s : Screen) (t : List Nat) : Bool :=
+  match t with
+  | [c] =>
+    (env.W (translate s c) == 1 || env.W (translate s c) == 2) && s.cursor.x == s.columns && s.mode DECAWM &&
+      s.cursor.y == bottomMargin s
+  | _ => false
+
+/-- executable predicate for the autowrap clause: the region has scrolled up by exactly one line
+    (every row other than the cursor row - where the character itself lands, C04 - is what `index`
+    documents), the cursor row is unchanged and so are the margins -/
+def propC06wrap (env : Env) (pre : Screen) (c : Call) (post : Screen) : Bool :=
+  match c with
+  | .draw t =>
+    if wrapsAtBottom env pre t then
+      allCellsB pre.lines pre.columns (fun y x =>
+        y == pre.cursor.y || decide (post.cell y x = rowsUp pre (topMargin pre) (bottomMargin pre) 1 y x)) &&
+      post.cursor.y == pre.cursor.y && post.margins == pre.margins
+    else true
+  | _ => true
+
 end C06
 end Memterm
 
